@@ -23,7 +23,7 @@ import ufl.algorithms.cancel_jacobian_products as CJ
 from ufl.core.multiindex import FixedIndex, Index, MultiIndex
 
 from ufv import num as N
-from ufv.core import proved, undecided, violated
+from ufv.core import crash_text, deliberate, proved, undecided, violated
 from ufv.den import World, _cofactor, den, leibniz_det
 from ufv.opq import Opq, mesh
 from ufv.semv import check_same
@@ -109,6 +109,8 @@ def build(run):
                 for p in passes:
                     r = p()(r)
             except ValueError as ex:
+                if not deliberate(ex):
+                    return violated(f"crash instead of a result or a refusal: {crash_text(ex)}", reproduced=True, backend="exec")
                 return proved("refused", sample=f"{tag}: raises ValueError {ex}"[:200])
             except Exception as ex:  # noqa: BLE001
                 return violated(f"{tag}: pass crashed with {type(ex).__name__}: {ex}", replay={"expr": str(e)[:600], "repr": repr(e)[:3000]},
